@@ -180,6 +180,8 @@ structure Env where
   resolve : Option Time → String → Option DidDoc
   /-- verifier store has a revocation for this credential id -/
   revoked : String → Bool
+  /-- the revocation store cannot answer (GetRevocations returns an error other than not-found): Verify returns that error -/
+  storeFails : Bool := false
   statusList : String → Option StatusList
   /-- trust.Config.IsTrusted type issuer -/
   trusted : String → String → Bool
@@ -416,7 +418,9 @@ def lift {α β} (f : β → α) (c : Check α) : Check β := { name := c.name, 
 def chkValidator (E : Env) : Check Cred := { name := "validator", run := validate E }
 def chkMaxTypes : Check Cred := { name := "max-2-types", run := fun c => guard (c.types.length ≤ 2) "too-many-types" }
 def chkNotRevoked (E : Env) : Check Cred :=
-  { name := "not-revoked", run := fun c => match c.id with | none => .pass | some id => guard (!E.revoked id) "revoked" }
+  { name := "not-revoked", run := fun c => match c.id with
+      | none => .pass
+      | some id => guard (!E.storeFails && !E.revoked id) (if E.storeFails then "store-error" else "revoked") }
 def chkStatusList (E : Env) : Check Cred :=
   { name := "status-list", run := fun c => guard (statusVerdict E c != .revoked) "revoked" }
 def chkTrusted (E : Env) (allowUntrusted : Bool) : Check Cred :=
@@ -528,6 +532,36 @@ def verifyVP (cfg : Cfg) (P : Crypto) (E : Env) (verifyVCsFlag allowUntrusted : 
     | .ok _ => if verifyVCsFlag then verifyVCs cfg P E allowUntrusted at_ vp vp.vcs else .ok ()
     | r => r
   | r => r
+
+/-! ## sibling entry points of the same clauses -/
+
+/-- POST /internal/vcr/v2/verifier/vc (vcr/api/vcr/v2 VerifyVC): signature always checked, at the current time; trust is
+    required for did:nuts issuers unless the (deprecated) option says otherwise, never for other DID methods -/
+def apiAllowUntrustedVC (issuer : String) (option : Option Bool) : Bool :=
+  if "did:nuts".toList.isPrefixOf issuer.toList then option.getD false else true
+
+def apiVerifyVC (cfg : Cfg) (P : Crypto) (E : Env) (option : Option Bool) (c : Cred) : Res Unit :=
+  verify cfg P E (apiAllowUntrustedVC c.issuer option) true none c
+
+/-- POST /internal/vcr/v2/verifier/vp (VerifyVP): credentials verified unless the request says otherwise; trust in the
+    credentials' issuers is required when the presentation's signer is a did:nuts DID -/
+def apiVerifyVP (cfg : Cfg) (P : Crypto) (E : Env) (verifyCredentials : Option Bool) (at_ : Option Time) (vp : Pres) : Res Unit :=
+  match presentationSigner E vp with
+  | none => .err "vp-subject-error"
+  | some s => verifyVP cfg P E (verifyCredentials.getD true) (!("did:nuts:".toList.isPrefixOf s.toList)) at_ vp
+
+/-- sqlWallet.List: the stored credentials that `Verify(cred, allowUntrusted = true, checkSignature = false, now)` accepts -/
+def walletList (cfg : Cfg) (P : Crypto) (E : Env) (stored : List Cred) : List Cred :=
+  stored.filter (fun c => (verify cfg P E true false none c).isOk)
+
+/-- sqlWallet.BuildPresentation(validateVC = true): every credential's signature is verified at the proof's creation time first -/
+def walletValidate (cfg : Cfg) (P : Crypto) (E : Env) (created : Time) : List Cred → Res Unit
+  | [] => .ok ()
+  | c :: cs =>
+    match runChecks (signatureChecks cfg P E (some created) c) c with
+    | .ok _ => walletValidate cfg P E created cs
+    | .err e => .err ("invalid-credential:" ++ e)
+    | .panic s => .panic s
 
 /-! ## the node's own issuer and wallet (issuer.go buildAndSignVC / Issue, presenter.go buildPresentation) -/
 
